@@ -429,7 +429,7 @@ class AccessControlList(SimComponent):
         :param int position: The position in the ACL list to insert this rule. Defaults is position 0 right at the top.
         :raises ValueError: If the position is out of bounds.
         """
-        if 0 <= position < self.max_acl_rules:
+        if 0 <= position < self.max_acl_rules - 1:
             if self._acl[position]:
                 self.sys_log.info(f"Overwriting ACL rule at position {position}")
             self._acl[position] = ACLRule(
